@@ -10,15 +10,16 @@ git checkout -q -- . ; git clean -fdq -e target -e SEEDS -e SEEDS.done sdk/tests
 place_demo() {
   case $MODE in
     itest) cp $SD/demo.rs sdk/tests/seed_confirm_demo.rs; DEMOARGS="--test seed_confirm_demo";;
+    itest_cli) cp $SD/demo.rs cli/tests/seed_confirm_demo.rs; DEMOARGS="--test seed_confirm_demo";;
     append:*) cat $SD/demo.rs >> ${MODE#append:}; DEMOARGS="--lib -- seed";;
     diff) git apply $SD/demo.diff 2>/dev/null || patch -p1 -s -F3 < $SD/demo.diff; DEMOARGS="--lib -- seed";;
   esac
 }
-run_demo() { cargo test -p $PKG --offline $DEMOARGS 2>&1 | grep -E "^test result|^error(\[|:)" | head -3 | tr '\n' ' '; }
+run_demo() { cargo test -p $PKG --offline ${EXTRA:-} $DEMOARGS 2>&1 | grep -E "^test result|^error(\[|:)" | head -3 | tr '\n' ' '; }
 place_demo
 A=$(run_demo)
 git apply $SD/patch.diff || { echo "CONFIRM $S: patch does not apply after demo"; git checkout -q -- .; exit 2; }
 B=$(run_demo)
-L=$(cargo test -p $PKG --offline --lib --no-fail-fast -- $FILTER 2>&1 | grep -E "^test result" | head -1)
-git checkout -q -- . ; rm -f sdk/tests/seed_confirm_demo.rs
+L=$(cargo test -p $PKG --offline ${EXTRA:-} --lib --no-fail-fast -- $FILTER 2>&1 | grep -E "^test result" | head -1)
+git checkout -q -- . ; rm -f sdk/tests/seed_confirm_demo.rs cli/tests/seed_confirm_demo.rs
 echo "CONFIRM $S: without=[$A] with=[$B] existing-tests-with-patch=[$L]"
